@@ -139,12 +139,13 @@ func content(name string) []byte {
 	return []byte("content:" + name)
 }
 
-var c04Files = []string{"a", "ab", "b", "abc", "c", "d/a", "d/ab", "da", "e", "big70", "big1m"}
+// "café" twice: composed (NFC) and decomposed (NFD) - two different names on this file system, like "a" and "A"
+var c04Files = []string{"a", "ab", "b", "abc", "c", "d/a", "d/ab", "da", "e", "big70", "big1m", "caf\u00e9", "cafe\u0301", "A"}
 var c04Dirs = []string{"d", "dd", "bulk"}
 
 // c04States is the sequence of content assignments materialised at the same paths.
 func c04States() []map[string]string {
-	base := map[string]string{"a": "x", "ab": "y", "b": "y", "abc": "xy", "c": "k4", "d/a": "x", "d/ab": "k64", "da": "x", "e": "empty", "big70": "k70", "big1m": "m1"}
+	base := map[string]string{"a": "x", "ab": "y", "b": "y", "abc": "xy", "c": "k4", "d/a": "x", "d/ab": "k64", "da": "x", "e": "empty", "big70": "k70", "big1m": "m1", "caf\u00e9": "x", "cafe\u0301": "x", "A": "x"}
 	clone := func(m map[string]string, ch map[string]string) map[string]string {
 		o := map[string]string{}
 		for k, v := range m {
